@@ -27,6 +27,8 @@ def build(V, cfg):
     wn.add_junction('J2', base_demand=0.01, elevation=0.0)
     wn.add_tank('T', elevation=cfg.get('tank_elev', 0.0), init_level=5.0, min_level=1.0, max_level=10.0, diameter=DIAM)
     wn.add_pipe('P1', 'R', 'J1', length=100.0, diameter=0.5, roughness=100.0)
+    if cfg.get('second_link') == 'first_in':
+        wn.add_pipe('P4', 'J2', 'T', length=100.0, diameter=0.3, roughness=100.0, check_valve=True)   # CV pipe INTO the tank, listed before P2
     if cfg.get('second_link') == 'first':
         wn.add_pipe('P4', 'T', 'J2', length=100.0, diameter=0.3, roughness=100.0, check_valve=True)   # CV pipe out of the tank, listed before P2
     if cfg.get('tank_link', 'pipe_in') == 'pipe_in':
@@ -39,7 +41,7 @@ def build(V, cfg):
     if cfg.get('bypass'):
         wn.add_pipe('P5', 'J1', 'J2', length=100.0, diameter=0.3, roughness=100.0, initial_status='CLOSED')   # closed bypass around P3
         wn.get_link('P5')._user_status = LinkStatus.Closed
-    if cfg.get('second_link') and cfg.get('second_link') != 'first':
+    if cfg.get('second_link') and cfg.get('second_link') not in ('first', 'first_in'):
         wn.add_pipe('P4', 'T', 'J2', length=100.0, diameter=0.3, roughness=100.0, check_valve=True)   # CV pipe out of the tank
     if cfg.get('vol_curve'):
         wn.add_curve('VC', 'VOLUME', [(0.0, 0.0), (4.0, 100.0), (20.0, 1700.0)])      # area 25 below 4 m, 100 above
@@ -143,6 +145,8 @@ def make_policy(cfg, choose):
             return tank.head + (1.0 if q > 0 else (-1.0 if q < 0 else 0.0))
         if nn == 'J2' and cfg.get('oset'):
             # contract H2 for the CV pipe P4 (T -> J2): it carries flow only down a head gradient
+            if cfg.get('second_link') == 'first_in':
+                return tank.head + 1.0 if getattr(plane, 'tank_o', 0.0) > 0 else tank.head - 1.0
             return tank.head - 1.0 if getattr(plane, 'tank_o', 0.0) > 0 else tank.head + 1.0
         return 50.0
     pol = ctrlplane.table_policy(flow_of, head_of)
